@@ -98,6 +98,26 @@ type c18GBox[T any] struct {
 	Flag  bool `json:"flag"`
 }
 
+// the ",string" option: encoding/json writes these numbers and booleans inside a JSON string
+type c18StringTag struct {
+	N  int     `json:"n,string"`
+	U  uint8   `json:"u,string"`
+	F  float64 `json:"f,string"`
+	B  bool    `json:"b,string"`
+	S  string  `json:"s,string"`
+	P  *int64  `json:"p,string"`
+	O  int     `json:"o,string,omitempty"`
+	L  []int   `json:"l,string"` // (the option does not apply to lists: written as a list of numbers)
+	In c18Leaf `json:"in,string"`
+}
+
+// a struct that embeds a pointer to its own type (encoding/json promotes nothing from it and writes the other fields)
+type c18SelfEmbed struct {
+	*c18SelfEmbed
+	V int    `json:"v"`
+	W string `json:"w,omitempty"`
+}
+
 // the outer field is declared BEFORE the embedded struct that promotes a field of the same JSON name
 type c18EmbedCollisionOuterFirst struct {
 	ID int `json:"id"`
@@ -107,7 +127,7 @@ type c18EmbedCollisionOuterFirst struct {
 func c18StaticTypes() []reflect.Type {
 	return []reflect.Type{
 		reflect.TypeOf(c18GTree[int]{}), reflect.TypeOf(c18GTree[string]{}), reflect.TypeOf(c18GPair[string, uint8]{}), reflect.TypeOf(c18GBox[c18Leaf]{}), reflect.TypeOf([]c18GTree[float64]{}),
-		reflect.TypeOf(c18GBox[c18GTree[int]]{}), reflect.TypeOf(c18EmbedCollisionOuterFirst{}),
+		reflect.TypeOf(c18GBox[c18GTree[int]]{}), reflect.TypeOf(c18EmbedCollisionOuterFirst{}), reflect.TypeOf(c18StringTag{}), reflect.TypeOf([]c18StringTag{}), reflect.TypeOf(c18SelfEmbed{}),
 		reflect.TypeOf(c18Leaf{}), reflect.TypeOf(c18Tree{}), reflect.TypeOf(&c18Tree{}), reflect.TypeOf([]c18Tree{}), reflect.TypeOf([]*c18Tree{}), reflect.TypeOf(map[string]*c18Tree{}),
 		reflect.TypeOf(c18A{}), reflect.TypeOf(c18B{}), reflect.TypeOf(c18EmbedCollision{}), reflect.TypeOf(c18EmbedPlain{}), reflect.TypeOf(c18EmbedPtr{}), reflect.TypeOf(c18Times{}),
 		reflect.TypeOf([]*int{}), reflect.TypeOf(map[string]*string{}), reflect.TypeOf([][]*string{}), reflect.TypeOf(map[string][]*c18Leaf{}), reflect.TypeOf([]map[string]*int8{}),
